@@ -39,7 +39,8 @@ def demo(wt, d):
 
 
 def run_check(wt, pid, tier='quick', seed=0):
-    env = dict(os.environ, VERIF_REPO=wt, VERIF_SEED=str(seed))
+    env = dict(os.environ, VERIF_REPO=wt, VERIF_SEED=str(seed),
+               VERIF_EVIDENCE_OUT=os.path.join(wt, '.verif-evidence-%s.json' % pid))
     t0 = time.time()
     rc, out = sh('./check %s --tier %s' % (pid, tier), cwd=VERIF, env=env, timeout=7200)
     sigs = re.findall(r'^  sig=(\S+)', out, flags=re.M)
